@@ -4,6 +4,31 @@ import json, os, subprocess
 HERE = os.path.dirname(os.path.dirname(os.path.abspath(__file__)))
 
 CHECKS = {
+ 'C02': dict(
+    category='exploration', design_ref='4/C02, 3.2, 3.4, 3.5, 3.7',
+    technique='history + executable model: every request is a unique tagged token, every outcome is matched against a reference interpreter of the servlet tree; ledger shadow inside the server critical section; adversarial-but-legal id() allocator; schedule fuzzer (incl. in child workers)',
+    text='Server / AsyncServer lifetimes over servlet trees drawn from a grammar (thread/process leaves with 1-3 workers, batching, in-worker pools, Sequential, Ensemble fail_fast +/-, Switch), 1-6 concurrent callers mixing call and stream, failures / rejections / poisoned batches / short deadlines, five id() reuse policies and a dedicated fail-fast-ensemble id-recycling scenario. Each outcome must be the reference meaning of the request own token (co-batched failures allowed only when the batch names a real poisoner); stream order; no ledger miss or id collision.',
+    note='Trusted: the reference interpreter (vlib/srvharness.py); TimeoutError legal only for deadlines <= 0.25 s.'),
+ 'C04': dict(
+    category='fault_enumeration', design_ref='4/C04',
+    technique='fault enumeration over (shape, failure site, failing positions, callers) with reference-model oracle, failure-site marker search in object / remote tracebacks, and batch membership taken from the instrumented call log',
+    text='All fault plans over 17 servlet shapes (thread/process, batched, 3-stage sequential across process boundaries, ensembles fail_fast +/- incl. every member subset) x {preprocess, call, poisoned batch} x {first,last,pair,every 3rd,all,none} x {1,5 callers} (quick: all thread-only plans sampled to 260 + 36 process plans; thorough: all). Innocent requests must get their correct result; failing ones the original type/args and a traceback naming the raising line; batch errors must hit exactly the logged batch.',
+    note='Trusted: the site marker is a comment on the raising line of vlib/srvtargets.py; process-side call logs are append-only files read after exit.'),
+ 'C06': dict(
+    category='exploration', design_ref='4/C06, 3.5',
+    technique='invariant at a hook: dict-subclass ledger swapped in before __enter__ (evaluated inside the server own critical section) + sampled public backlog + Condition.wait counter + worker call log; schedule fuzzer with targeted sites in the wait/insert window',
+    text='Lifetimes with capacity 1-4, 2-16 caller threads / asyncio tasks, backpressure on/off, successes, failures, timeouts around the service time, abandoned streams, cancelled tasks. Backlog never above capacity (attained, never exceeded), backpressure rejections are immediate (no Condition.wait, args (n, None)) and leave no trace in any worker, slots return to zero when idle and after exit; a dedicated scenario bounds the no-backpressure wait.',
+    note='Trusted: idle = callers returned and call log quiet; wait-bound scenario uses 3 s service vs 0.1 s timeout with a 1.5 s verdict threshold.'),
+ 'C07': dict(
+    category='exploration', design_ref='4/C07',
+    technique='schedule fuzzer with targeted sites between the gather thread cancelled() test and set_result, at the caller cancel(), and in the fifo_stream cancel loop; witness-request oracle; helper-thread death recorder; event-loop exception handler',
+    text='Victim callers sweep call() deadlines in 20 steps across the service time, close Server.stream early at every position, and cancel asyncio tasks, while witness callers with 30 s deadlines must all be answered correctly; afterwards three more calls, gather thread alive, no helper thread or loop callback raised, __exit__ returns. Evidence counts abandonments whose result reached the gather thread before / after the cancellation.',
+    note='Trusted: the before/after classification reads timestamps the server records itself (evidence only, not a verdict).'),
+ 'C09': dict(
+    category='exploration', design_ref='4/C09, 3.6',
+    technique='instrumented worker logging every call argument (memory / per-process append-only files) judged offline; real Worker._get_input_batch in virtual time with the C19 timeline oracle; schedule fuzzer with a targeted site in the collector full()->wait() window; bounded-progress watchdog for lone requests',
+    text='Real servers (batched stage behind a failing upstream stage, preprocess rejections, 1-3 competing thread/process workers, in-worker pools; burst / trickle / lone arrivals): every call argument is a list of 1..b genuine inputs (single element for b=0, [x] for b=1), every accepted request in exactly one call, rejected / upstream-failed ones in none, every request answered. 20 000 virtual-time scripts on _get_input_batch for the release rules.',
+    note='Trusted: scripted queue + virtual clock model SingleLane.get(timeout) + perf_counter; lone-request liveness is bounded progress (60 s + stable stacks).'),
  'C03': dict(
     category='exploration', design_ref='4/C03, 3.7',
     technique='differential runtime oracle against lazy reference generators; exhaustive enumeration of short well-formed operator sequences; instrumented source counting pulls',
